@@ -2076,7 +2076,9 @@ class unyt_array(np.ndarray):
                 out_arr = ret_class(out_arr, unit, bypass_validation=True)
         if out is not None:
             if mul != 1:
-                multiply(out, mul, out=out)
+                # scale the raw buffer: going through out (a unyt_array that
+                # still carries its old units) would re-enter this method
+                multiply(out_func, mul, out=out_func)
                 if np.shares_memory(out_arr, out):
                     mul = 1
             if isinstance(out, unyt_array):
